@@ -50,7 +50,7 @@ func TestC19Main(t *testing.T) {
 	}
 	pbt.Main(t, pbt.Spec[C19Scenario]{
 		ID: "C19", Facet: "main", Rule: c19Rule,
-		Quick: 2000, Thorough: 60000,
+		Quick: 2000, Thorough: 48000,
 		Gen: genC19(cfg), Run: func(s C19Scenario) pbt.Outcome { return runC19(s, runOpts{Mode: mode, ID: "C19"}) },
 	})
 }
